@@ -18,7 +18,8 @@ fn main() {
     for variant in ["basic", "causal"] { for k in [0usize, 1, 2, 8] {
         if variant == "basic" && k > 0 { continue; }
         let log_id = LogId::from_topic(Topic::from([3u8; 32]));
-        let prev: Vec<Hash> = (0..k).map(|i| Hash::digest([i as u8; 5])).collect();
+        // digests, plus (k = 8) hashes that share a long common prefix / differ only in one late byte
+        let prev: Vec<Hash> = (0..k).map(|i| if k == 8 && i >= 4 { let mut b = [0xABu8; 32]; b[31 - (i - 4) * 9] = i as u8; Hash::from(b) } else { Hash::digest([i as u8; 5]) }).collect();
         let bytes = if variant == "basic" { encode_cbor(&Extensions::from_topic(Topic::from([3u8; 32]))).unwrap() }
             else { encode_cbor(&(1u16, 1u16, log_id, Timestamp::new(42), prev.clone())).unwrap() };
         let mut encodings = std::collections::BTreeSet::new();
